@@ -228,6 +228,13 @@ pub struct CodegenContext {
     changed: HashSet<UndefinedSymbol>,
     /// The symbols that were looked up in the current pass
     used: Vec<(SymbolIndex, UndefinedSymbol)>,
+    /// A reference that was bound to one symbol while the pass went on to define another one that it should have been
+    /// bound to, if any. The layout is started afresh then (see `after_pass`).
+    rebound: Option<UndefinedSymbol>,
+    /// How often the layout was started afresh
+    fresh_starts: usize,
+    /// In a pass that starts the layout afresh nothing is known about what has not been defined yet in that pass
+    hiding_stale_symbols: bool,
     /// Was anything skipped in the current pass because there was no segment to put it in (yet)?
     skipped_without_segment: bool,
     current_scope: IdentifierPath,
@@ -302,6 +309,9 @@ impl CodegenContext {
             undefined: HashSet::new(),
             changed: HashSet::new(),
             used: vec![],
+            rebound: None,
+            fresh_starts: 0,
+            hiding_stale_symbols: false,
             skipped_without_segment: false,
             current_scope: IdentifierPath::empty(),
             current_scope_nx: SymbolIndex::new(0),
@@ -397,11 +407,53 @@ impl CodegenContext {
             }
         }
 
+        // A reference may also have been found in an enclosing scope, while further down this pass defined the same name
+        // closer by (a label behind the instruction that refers to it, which hides a constant defined earlier). The
+        // next pass binds the reference to the closer symbol. But the addresses that this pass came up with were
+        // influenced by the value of a symbol that the reference has nothing to do with, and it may depend on them which
+        // of several consistent layouts the passes settle on (an instruction just in front of the zero page boundary
+        // takes two bytes when its operand ends up at $FF and three when it ends up at $100: both are consistent). So the
+        // layout is started afresh: the next pass knows, like a first pass, nothing about what it has not defined yet,
+        // except for the fact that it exists.
+        const MAX_FRESH_STARTS: usize = 2;
+        let was_hiding_stale_symbols = self.hiding_stale_symbols;
         for (symbol_nx, usage_location) in std::mem::take(&mut self.used) {
-            if matches!(self.symbols.try_get(symbol_nx), Some(symbol) if symbol.pass_idx < self.pass_idx)
-            {
+            let symbol = match self.symbols.try_get(symbol_nx) {
+                Some(symbol) => symbol,
+                None => continue,
+            };
+            if symbol.pass_idx < self.pass_idx {
                 self.changed.insert(usage_location);
+                continue;
             }
+            if self.rebound.is_none()
+                && self.fresh_starts < MAX_FRESH_STARTS
+                && matches!(symbol.ty, SymbolType::Label | SymbolType::Constant)
+                && !matches!(symbol.data, SymbolData::MacroDefinition(_))
+            {
+                let closer = self
+                    .symbols
+                    .query(usage_location.scope_nx, &usage_location.id)
+                    .filter(|nx| *nx != symbol_nx)
+                    .and_then(|nx| self.symbols.try_get(nx));
+                if matches!(closer, Some(closer) if closer.pass_idx == self.pass_idx
+                    && matches!(closer.ty, SymbolType::Label | SymbolType::Constant)
+                    && !matches!(closer.data, SymbolData::MacroDefinition(_)))
+                {
+                    self.rebound = Some(usage_location);
+                }
+            }
+        }
+        // (both the pass that found out and the pass that started afresh need a pass after them)
+        if let Some(rebound) = &self.rebound {
+            self.changed.insert(UndefinedSymbol {
+                scope_nx: rebound.scope_nx,
+                id: rebound.id.clone(),
+                span: rebound.span,
+            });
+        }
+        if was_hiding_stale_symbols {
+            self.rebound = None;
         }
 
         result
@@ -443,6 +495,10 @@ impl CodegenContext {
     fn next_pass(&mut self) {
         self.drop_stale_symbols(true);
         self.pass_idx += 1;
+        self.hiding_stale_symbols = !self.hiding_stale_symbols && self.rebound.is_some();
+        if self.hiding_stale_symbols {
+            self.fresh_starts += 1;
+        }
         self.macro_invocations.clear();
         self.macro_depth = 0;
         self.macro_depth_exceeded = false;
@@ -617,6 +673,7 @@ impl CodegenContext {
             self.try_current_target_pc(),
         )
         .in_pass(self.pass_idx)
+        .hiding_stale_symbols(self.hiding_stale_symbols)
     }
 
     fn emit(&mut self, span: Span, bytes: &[u8]) -> CoreResult<()> {
@@ -1317,6 +1374,11 @@ impl CodegenContext {
                         &IdentifierPath::from(&name.data),
                         |s| matches!(s.data, SymbolData::MacroDefinition(_)),
                     )
+                    // (a pass that starts the layout afresh does not know yet what a macro that is defined further
+                    // down looks like)
+                    .filter(|(_, symbol)| {
+                        !(self.hiding_stale_symbols && symbol.pass_idx < self.pass_idx)
+                    })
                     .map(|(symbol_nx, symbol)| {
                         (symbol_nx, symbol.data.as_macro_definition().clone())
                     });
